@@ -26,10 +26,27 @@ func GenLabels(rt *rapid.T, label string) map[string]string {
 	return m
 }
 
-// GenSel draws a non-empty matchLabels selector.
+// GenSel draws a selector: mostly matchLabels, sometimes matchExpressions
+// (Exists / DoesNotExist / In / NotIn), rarely the empty selector {}.
 func GenSel(rt *rapid.T, label string) Sel {
 	s := Sel{}
 	k := rapid.SampledFrom(labelKeys).Draw(rt, label+"K")
+	switch rapid.IntRange(0, 19).Draw(rt, label+"Shape") {
+	case 0:
+		return s // {} matches everything
+	case 1:
+		s["!"+k] = ""
+		return s
+	case 2:
+		s["?"+k] = ""
+		return s
+	case 3:
+		s[k+"!"] = rapid.SampledFrom(labelVals).Draw(rt, label+"V")
+		return s
+	case 4:
+		s[k+"="] = rapid.SampledFrom(labelVals).Draw(rt, label+"V")
+		return s
+	}
 	s[k] = rapid.SampledFrom(labelVals).Draw(rt, label+"V")
 	if rapid.IntRange(0, 4).Draw(rt, label+"2") == 0 {
 		for _, k2 := range labelKeys {
